@@ -17,6 +17,10 @@
   PiPtr: the array has `blocks + 1` cells, every occupied one the ciphertext of a full identifier block, and the dictionary
   is `pointer blocks` entries, all alike (`PiPtr.shape`): equal (blocks, pointer blocks) give identically shaped indexes
   (`PiPtr.shape_indistinguishable`).
+  Pi2Lev: the array has `arrayLen` cells, every occupied one the ciphertext of `mark ‖ block` with a block of exactly
+  `B · idsize` bytes — identifier blocks and pointer blocks of both levels alike —, and the dictionary is one entry per
+  keyword, all alike (`Pi2Lev.shape`): equal (keywords, array length) give identically shaped indexes
+  (`Pi2Lev.shape_indistinguishable`).
   CT14: the whole index shape is `CT14.shapeFor cfg ⌈log2 N⌉` (`CT14.shape`).
   ANSS16: the whole index shape is `shapeFor cfg ⌈log2 N⌉` (`ANSS16.shape`): number of tables, entries per table and all
   lengths; the level-table bound that makes the padding sufficient (at most 2^(t+1-j) lists at level j) is part of it.
@@ -31,6 +35,7 @@ import SSEPyVerif.Proofs.Schemes.SSE1Shape
 import SSEPyVerif.Proofs.Schemes.DP17Shape
 import SSEPyVerif.Proofs.Schemes.SSE2Shape
 import SSEPyVerif.Proofs.Schemes.PiPtrShape
+import SSEPyVerif.Proofs.Schemes.Pi2LevShape
 namespace SSEPy.C05
 open SSEPy.Sch SSEPy.Sch.Chain
 
@@ -426,6 +431,52 @@ theorem PiPtr.shape_indistinguishable (raw : RawCfg) (cfg : PiPtrCfg) (hcfg : Pi
   obtain ⟨b1, b2, b3⟩ := PiPtr.shape raw cfg hcfg lv hl hh K' db' u u' e' h' hids' hn'
   refine ⟨by rw [a1, b1, hA], fun c c' hc hc' => by rw [a2 c hc, b2 c' hc'], ?_⟩
   rw [hA, hP] at a3
+  exact a3.trans b3.symm
+
+/-- Pi2Lev (schemes/CJJ14/Pi2Lev): THE INDEX SHAPE IS A FUNCTION OF (keywords, array length) — the array has `arrayLen` cells
+    and every occupied cell has the ciphertext length of `mark ‖ block` for a block of exactly `B · idsize` bytes, whether it
+    holds identifiers, first-level pointers or second-level pointers (all are padded to the array block before they are
+    encrypted); the dictionary has one entry per keyword, each a label of the PRF's output length and the ciphertext of
+    `mark ‖ content` padded to `b · idsize` bytes — a small list, a pointer list (at most `b'` pointers of
+    `⌊b·idsize / b'⌋` bytes) and a second-level pointer list all fit that block, which is proved from the three size classes
+    of `_Enc`.  For every accepted configuration with a positive pointer width, key, database of identifiers of the
+    configured size and tape; hypothesis on the run: pairwise distinct dictionary labels (evaluated by the driver). -/
+theorem Pi2Lev.shape (raw : RawCfg) (cfg : Pi2LevCfg) (hcfg : Pi2Lev.cfgBuild raw = .ok cfg) (hidx : 0 < cfg.idxSize)
+    (lv : Leaves) (hl : LeafLaws lv) (hh : cfg.prfF.hashLen = 20) (K : Bytes) (db : DB) (t t' : Tape) (edb : PiPtrEDB)
+    (h : Pi2Lev.setup cfg lv K db t = .ok (edb, t'))
+    (hids : ∀ p ∈ db, ∀ id ∈ p.2, id.length = cfg.idSize.toNat)
+    (hn : ∀ sample t0 L A t1, takeNats t = .ok (sample, t0) →
+      Pi2Lev.encDb cfg lv K db sample (List.replicate (Pi2Lev.arrayLen cfg db) none) t0 = .ok (L, A, t1) →
+      (L.map (·.1)).Nodup) :
+    edb.A.length = Pi2Lev.arrayLen cfg db ∧
+    (∀ c, some c ∈ edb.A → c.length = PiPtr.clen (1 + (cfg.B * cfg.idSize).toNat)) ∧
+    (edb.D.map fun p => (p.1.length, p.2.length)).Perm
+      (List.replicate db.length (cfg.prfF.outputLength.toNat, PiPtr.clen (1 + (cfg.b * cfg.idSize).toNat))) := by
+  obtain ⟨hg, _⟩ := Pi2Lev.cfgBuild_ok cfg raw hcfg hidx
+  exact Pi2Lev.setup_shape cfg lv hl.enc_len (by rw [hh]; exact hl.hmac_len) (by rw [hh]; decide) hg K db t t' edb h hids hn
+
+/-- two databases with the same number of keywords and the same array length give identically shaped Pi2Lev indexes —
+    whatever their keywords, contents and list lengths (small, medium and large lists are indistinguishable by shape) -/
+theorem Pi2Lev.shape_indistinguishable (raw : RawCfg) (cfg : Pi2LevCfg) (hcfg : Pi2Lev.cfgBuild raw = .ok cfg)
+    (hidx : 0 < cfg.idxSize) (lv : Leaves) (hl : LeafLaws lv) (hh : cfg.prfF.hashLen = 20) (K K' : Bytes) (db db' : DB)
+    (t t' u u' : Tape) (e e' : PiPtrEDB)
+    (h : Pi2Lev.setup cfg lv K db t = .ok (e, t')) (h' : Pi2Lev.setup cfg lv K' db' u = .ok (e', u'))
+    (hids : ∀ p ∈ db, ∀ id ∈ p.2, id.length = cfg.idSize.toNat)
+    (hids' : ∀ p ∈ db', ∀ id ∈ p.2, id.length = cfg.idSize.toNat)
+    (hn : ∀ sample t0 L A t1, takeNats t = .ok (sample, t0) →
+      Pi2Lev.encDb cfg lv K db sample (List.replicate (Pi2Lev.arrayLen cfg db) none) t0 = .ok (L, A, t1) →
+      (L.map (·.1)).Nodup)
+    (hn' : ∀ sample t0 L A t1, takeNats u = .ok (sample, t0) →
+      Pi2Lev.encDb cfg lv K' db' sample (List.replicate (Pi2Lev.arrayLen cfg db') none) t0 = .ok (L, A, t1) →
+      (L.map (·.1)).Nodup)
+    (hA : Pi2Lev.arrayLen cfg db = Pi2Lev.arrayLen cfg db') (hW : db.length = db'.length) :
+    e.A.length = e'.A.length ∧
+    (∀ c c', some c ∈ e.A → some c' ∈ e'.A → c.length = c'.length) ∧
+    (e.D.map fun p => (p.1.length, p.2.length)).Perm (e'.D.map fun p => (p.1.length, p.2.length)) := by
+  obtain ⟨a1, a2, a3⟩ := Pi2Lev.shape raw cfg hcfg hidx lv hl hh K db t t' e h hids hn
+  obtain ⟨b1, b2, b3⟩ := Pi2Lev.shape raw cfg hcfg hidx lv hl hh K' db' u u' e' h' hids' hn'
+  refine ⟨by rw [a1, b1, hA], fun c c' hc hc' => by rw [a2 c hc, b2 c' hc'], ?_⟩
+  rw [hW] at a3
   exact a3.trans b3.symm
 
 end SSEPy.C05
